@@ -44,6 +44,7 @@ fn add_hist_counters(ctx: &mut Ctx, c: &hist::HistCounters) {
     ctx.add("sock_recv_parks", c.recv_parks);
     ctx.add("sock_probes", c.probes);
     ctx.add("sock_envelope_violations_sent", c.envelope_violations_sent);
+    ctx.add("sock_messages_ending_in_empty_frame", c.messages_ending_in_empty_frame);
     ctx.add("drops_total", c.drops_total);
     ctx.add("drops_with_partial_frame", c.drops_with_partial_frame);
     ctx.add("drops_after_waker_registered", c.drops_after_waker_registered);
@@ -443,6 +444,7 @@ impl Prop for C05 {
             ("sock_peers_reset", 50),
             ("sock_partial_releases", 1000),
             ("sock_envelope_violations_sent", 20),
+            ("sock_messages_ending_in_empty_frame", 100),
         ]
     }
     fn case_timeout(&self) -> std::time::Duration {
